@@ -430,7 +430,7 @@ func TestCardNumbers(t *testing.T) {
 }
 
 func props() []rp.Prop {
-	return []rp.Prop{rp.P[api.Case]{Name: "args", Checks: ev.Pick(120000, 4000000) / ev.Shards(), Gen: genCase, Sweep: sweep, Check: check}}
+	return []rp.Prop{rp.P[api.Case]{Name: "args", Checks: ev.Pick(120000, 20000000) / ev.Shards(), Gen: genCase, Sweep: sweep, Check: check}}
 }
 
 func TestC07(t *testing.T)    { rp.RunAll(t, props()...) }
